@@ -494,11 +494,32 @@ class C12(CrossCfg):
     tie = ["SqlVerb", "Facts_rstring", "Facts_rkey", "Facts_rlist", "Facts_rset", "Facts_rhash", "Facts_rzset"]
     facts = [r"^sql\..*\.verb$", r"^facts\.", r"^wrappers\."]
     listed = set()
+    needs_wire = True
+
+    def streams(self, tier, seed, search):
+        # "... on the handle and over the wire": requests through the real handler chain; whatever is answered
+        # with an error reply (refused: syntax, arity, wrong type, invalid value, unknown command, failed EXEC)
+        # must leave all six tables exactly as they were
+        mult = 8 if tier == "thorough" else (2 if search else 1)
+        out = CrossCfg.streams(self, tier, seed, search)
+        for i, (kind, traces) in enumerate((("valid", 40), ("malformed", 40), ("multi", 30), ("valid", 40))):
+            out.append(dict(kind="wire", driver="wiredriver",
+                            args=["-seed", seed * 1000 + 980 + i, "-traces", traces * mult, "-len", 100, "-stream", kind]))
+        return out
 
     def counts(self, op, v):
-        return v.get("N") in ("0", "1") or "R" in v
+        return v.get("N") in ("0", "1") or "R" in v or v.get("_wire") is not None
 
     def judge(self, op, v, mode):
+        w = v.get("_wire")
+        if w is not None:
+            toks = w["toks"]
+            refused = bool(toks) and toks[0].startswith("-")      # (a nil reply is not a refusal: GETSET on a missing key sets)
+            # a failing EXEC announces its array first (D12): the error is the last token written
+            failed_exec = bool(toks) and toks[0].startswith("*") and toks[-1].startswith("-") and w["args"] and w["args"][0].lower() == b"exec"
+            if (refused or failed_exec) and w["pre"].strip() != w["post"].strip():
+                return ("violation", "a request answered with an error reply changed the tables (over the wire)")
+            return None
         if "R" in v:      # a call with an invalid value type must be refused and leave no trace
             if v.get("A") == "0":
                 return ("violation", "a call refused for its value type changed the tables")
